@@ -9,6 +9,7 @@ import Rooc.Pre.Types
 import Rooc.Pre.Expand
 import Rooc.Proofs.Field
 import Rooc.Proofs.Pre
+import Rooc.Proofs.Iter
 namespace Rooc.Props.C18
 set_option linter.unusedSectionVars false
 open Rooc Rooc.Pre Rooc.Proofs.Pre
@@ -195,6 +196,61 @@ theorem u64_operand_wrap_counterexample :
     applyBinary (.pint 9223372036854775808 : Prim α) .add (.integer 1) = .ok (.integer (-9223372036854775807)) := by
   simp [applyBinary, applyBinPint, u64AsI64, ofI64, checkedI64, inI64, i64Min, i64Max]
 
+/-! ### the proposed repair of the `as i64` wrap: integer results are EXACT -/
+
+def intOp (op : BinOp) (x y : Int) : Option Int :=
+  match op with | .add => some (x + y) | .sub => some (x - y) | .mul => some (x * y) | _ => none
+
+/-- with `fixes/C18-exact-mixed-integer-arithmetic.diff` every `Integer` / `PositiveInteger` result of
+`+ - *` on integer operands is the mathematical result (so a value that does not fit is the Overflow
+error, never a wrapped number).  For the CURRENT code this fails: `u64_operand_wrap_counterexample`. -/
+theorem exact_integer_results (a b r : Prim α) (op : BinOp) (x y e : Int)
+    (ha : a = .integer x ∨ (∃ u : Nat, a = .pint u ∧ x = u)) (hb : b.intVal = some y) (he : intOp op x y = some e)
+    (h : applyBinaryX a op b = .ok r) : r.intVal = some e := by
+  rcases ha with rfl | ⟨u, rfl, rfl⟩
+  · cases b <;> cases op <;>
+      simp_all [applyBinaryX, applyBinIntegerX, applyBinInteger, Prim.intVal, intOp, ofI64, checkedI64, boolI] <;>
+      (split at h <;> simp_all) <;> (subst h; simp [Prim.intVal]) <;> omega
+  · cases b <;> cases op <;>
+      simp_all [applyBinaryX, applyBinPintX, applyBinPint, Prim.intVal, intOp, ofI64, ofU64, checkedI64, checkedU64, boolI] <;>
+      (split at h <;> simp_all) <;> (try (subst h; simp [Prim.intVal])) <;> (try omega)
+    all_goals (rename_i hq; obtain ⟨h1, h2⟩ := hq; rw [inU64_iff] at h1; omega)
+
+theorem no_panic_applyBinaryX (a b : Prim α) (op : BinOp) : applyBinaryX a op b ≠ .error .panic := by
+  cases a with
+  | integer i =>
+    simp only [applyBinaryX, applyBinIntegerX]
+    cases b <;> cases op <;> simp [applyBinInteger, floatArith_ne_panic, ofI64_ne_panic, checkedDiv_ne_panic]
+  | pint u =>
+    simp only [applyBinaryX, applyBinPintX]
+    cases b <;> cases op <;> simp [applyBinPint, floatArith_ne_panic, ofI64_ne_panic, ofU64_ne_panic, checkedDiv_ne_panic]
+  | _ => simpa [applyBinaryX] using no_panic_applyBinary _ b op
+
+/-- the repair changes nothing as long as every `PositiveInteger` operand is below 2^63 -/
+theorem repair_agrees_binary (a b : Prim α) (op : BinOp)
+    (ha : ∀ u, a = .pint u → u < 9223372036854775808) (hb : ∀ u, b = .pint u → u < 9223372036854775808) :
+    applyBinaryX a op b = applyBinary a op b := by
+  cases a with
+  | integer i =>
+    cases b with
+    | pint n =>
+      have hn := hb n rfl
+      cases op <;> simp [applyBinaryX, applyBinIntegerX, applyBinary, applyBinInteger, u64AsI64, hn]
+    | _ => cases op <;> simp [applyBinaryX, applyBinIntegerX, applyBinary]
+  | pint u =>
+    have hu := ha u rfl
+    cases b with
+    | pint n =>
+      have hn := hb n rfl
+      cases op <;> simp [applyBinaryX, applyBinPintX, applyBinary, applyBinPint, u64AsI64, hn, hu]
+    | _ => cases op <;> simp [applyBinaryX, applyBinPintX, applyBinary, applyBinPint, u64AsI64, hu]
+  | _ => simp [applyBinaryX]
+
+example : applyBinaryX (.pint 9223372036854775808 : Prim α) .add (.integer 1) = .error .overflow := by
+  simp [applyBinaryX, applyBinPintX, ofI64, checkedI64, inI64, i64Min, i64Max]
+example : applyBinaryX (.integer (-1) : Prim α) .add (.pint 9223372036854775808) = .ok (.integer 9223372036854775807) := by
+  simp [applyBinaryX, applyBinIntegerX, ofI64, checkedI64, inI64, i64Min, i64Max]
+
 /-- `as_primitive` on operator expressions never panics -/
 theorem eval_binary_never_panics (e : PExp α) : e.eval ≠ .error (.binOpError .panic) := by
   induction e with
@@ -243,6 +299,21 @@ theorem range_size (lo hi : Int) (inclusive : Bool) :
   simp [rangeVals, intsFrom_length]
 
 example : (rangeVals 0 100000000000 false).length = 100000000000 := by rw [range_size]; rfl
+
+/-- **output size of an expansion**: the number of terms a scoped aggregate / rows a quantified
+constraint / variables a declaration expands to is exactly the product of the sizes of its iteration
+sets (when these do not depend on outer iteration variables) — nothing else in the input makes the
+compiled model grow. -/
+theorem expansion_size {β : Type} (k : Env → Except IErr β) (its : List It) (P : Nat) (hP : iterProduct its = some P)
+    (env : Env) (xs : List β) (h : iterate k its env = .ok xs) : xs.length = P := by
+  simp only [iterate] at h
+  cases he : envs its env with
+  | error e => simp [he] at h
+  | ok es =>
+    simp [he] at h
+    rw [Rooc.Proofs.Iter.mapE_length k es xs h, Rooc.Proofs.Iter.envs_length_prod its P hP env es he]
+
+example : iterProduct [⟨["i"], .range (.lit 0) (.lit 3) false⟩, ⟨["a", "b"], .zip2 [1, 2] [3, 4, 5]⟩] = some 6 := by decide
 
 /-! ### numeric casts stay inside the target type (exact arithmetic with IEEE special values) -/
 section casts
